@@ -16,7 +16,7 @@ import ast
 import copy
 from typing import Dict, List, Optional, Tuple
 
-from ..cfg import (call_name, calls_in, walk_no_nested, parents_map, guards_of, attr_chain, enum_paths, const_int)
+from ..cfg import (call_name, calls_in, walk_no_nested, parents_map, guards_of, attr_chain, enum_paths, const_int, cconds, ctext, cguards_of, branches)
 from ..core import AnalysisError, Ctx, Func, norm
 
 SPEC = {
@@ -263,6 +263,7 @@ def run(ctx: Ctx):
 
     # dispatch: which method under which condition (constructor paths)
     disp: Dict[str, List[str]] = {}
+    cdisp: List[Tuple[Optional[str], List[Tuple[str, bool]]]] = []
     for p in enum_paths(init.node.body):
         sel = None
         for st in p.stmts():
@@ -272,25 +273,26 @@ def run(ctx: Ctx):
         for t, o in p.conds():
             conds.append(("" if o else "not ") + "(" + norm(t) + ")")
         disp.setdefault(sel, []).append(" and ".join(conds))
+        cdisp.append((sel, cconds(p)))
     ctx.extra["dispatch"] = disp
-    none_m = [m for m, cs in disp.items() if m and any("is None" in c and c.startswith("(") for c in cs)]
-    only_m = [m for m, cs in disp.items() if m and any("(not %s.any())" % mask_name in c and not c.startswith("(%s" % p_restr) for c in cs
-                                                        if "not (" in c.split(" and ")[0] or True) and m not in none_m]
     # R8.3
     paths_ok = None not in disp and len(disp) == 3
     ctx.ob("R8.3", init, "constructor paths -> method: %s" % {k: len(v) for k, v in disp.items()}, paths_ok,
            "every constructor path selects exactly one evaluation method, and three methods are in use", node=init.node)
     sel_none = sel_only = sel_with = None
-    for m, cs in disp.items():
-        for c in cs:
-            first = c.split(" and ")[0]
-            if first.startswith("(") and first.strip("()").replace(" ", "") in (
-                    "%sisNoneorlen(%s)==0" % (p_restr, p_restr), "not%s" % p_restr, "%sisNoneornot%s" % (p_restr, p_restr),
-                    "%sisNoneorlen(%s)<1" % (p_restr, p_restr)):
-                sel_none = m
-            elif first.startswith("not (") and ("(not %s.any())" % mask_name) in c and "not (not" not in c:
+    empty_forms = {ctext(x % {"r": p_restr}) for x in ("%(r)s is None or len(%(r)s) == 0", "not %(r)s", "%(r)s is None or not %(r)s",
+                                                        "%(r)s is None or len(%(r)s) < 1", "len(%(r)s) == 0 or %(r)s is None")}
+    anyt = ctext("%s.any()" % mask_name)[0]
+    for m, cs in cdisp:
+        if not cs:
+            continue
+        first = cs[0]
+        if first in empty_forms:
+            sel_none = m
+        elif (first[0], not first[1]) in empty_forms:
+            if (anyt, False) in cs:
                 sel_only = m
-            elif first.startswith("not (") and ("not (not %s.any())" % mask_name) in c:
+            elif (anyt, True) in cs:
                 sel_with = m
     ctx.ob("R8.3", init, "no restraints -> %s ; all fixed restrained -> %s ; otherwise -> %s" % (sel_none, sel_only, sel_with),
            None not in (sel_none, sel_only, sel_with) and len({sel_none, sel_only, sel_with}) == 3,
